@@ -5,6 +5,7 @@ VERIF=$(cd "$(dirname "$0")" && pwd)
 REPO=${VERIF_REPO:-/repo}
 export GOFLAGS=-mod=mod GOPROXY=off GOSUMDB=off GOTOOLCHAIN=local
 GROUP=$1; OUT=$2
+TARGET=""
 [ -x "$VERIF/bin/vinstr" ] || (cd "$VERIF/tools/vinstr" && go build -o "$VERIF/bin/vinstr" .)
 mkdir -p "$OUT/ov"
 case "$GROUP" in
@@ -23,7 +24,13 @@ case "$GROUP" in
     MOUNT="$VERIF/harness/nsqadmin=nsqadmin,$VERIF/harness/cmd/adminx=internal/verif/cmd/adminx"
     KEEP=""
     ;;
+  ntfx)
+    PKGS="./apps/nsq_to_file"
+    MOUNT="$VERIF/harness/apps/nsq_to_file=apps/nsq_to_file"
+    KEEP=""
+    TARGET=./apps/nsq_to_file
+    ;;
   *) echo "unknown group $GROUP"; exit 2;;
 esac
 "$VERIF/bin/vinstr" -repo "$REPO" -out "$OUT/ov" -rt "$VERIF/rt" -mount "$MOUNT" -keep "$KEEP" $PKGS >/dev/null
-cd "$REPO" && go build -overlay "$OUT/ov/overlay.json" -tags verif -o "$OUT/h" ./internal/verif/cmd/$GROUP
+cd "$REPO" && go build -overlay "$OUT/ov/overlay.json" -tags verif -o "$OUT/h" ${TARGET:-./internal/verif/cmd/$GROUP}
